@@ -158,6 +158,14 @@ type Trait struct {
 
 // NewTrait instantiates new Trait.
 func NewTrait(config Config, options ...func(t *Trait)) *Trait {
+	t := &Trait{}
+	t.init(config, options...)
+
+	return t
+}
+
+// init sets up Trait in place, so that background goroutines share state with the owner of Trait.
+func (c *Trait) init(config Config, options ...func(t *Trait)) {
 	if config.DeleteExpiredAfter == 0 {
 		config.DeleteExpiredAfter = 24 * time.Hour
 	}
@@ -178,26 +186,22 @@ func NewTrait(config Config, options ...func(t *Trait)) *Trait {
 		config.TimeToLive = 5 * time.Minute
 	}
 
-	t := &Trait{
-		Config: config,
-		Stat:   config.Stats,
-		Closed: make(chan struct{}),
-	}
-	t.Log.setup(config.Logger)
+	c.Config = config
+	c.Stat = config.Stats
+	c.Closed = make(chan struct{})
+	c.Log.setup(config.Logger)
 
 	for _, o := range options {
-		o(t)
+		o(c)
 	}
 
-	if config.Stats != nil && t.Len != nil {
-		go t.reportItemsCount()
+	if config.Stats != nil && c.Len != nil {
+		go c.reportItemsCount()
 	}
 
-	if t.DeleteExpired != nil || t.Evict != nil {
-		go t.janitor()
+	if c.DeleteExpired != nil || c.Evict != nil {
+		go c.janitor()
 	}
-
-	return t
 }
 
 // PrepareRead handles cached entry.
